@@ -335,6 +335,18 @@ def silhouette (d : List (List α)) (labels : List Nat) : α :=
   else
     let idx := List.range labels.length
     sumS ((idx.zip labels).map fun (i, li) => silSample d labels i li) / ((labels.length : Nat) : α)
+
+/-- `eval_sample.sub(&other_sample).mapv(|x| x * x).sum()` -/
+def sqDist (x y : List α) : α := sumS (List.zipWith (fun a b => (a - b) * (a - b)) x y)
+
+variable [Transc α]
+
+/-- the distances `add_point` accumulates: `sqrt` of the squared Euclidean distance of every pair of records -/
+def distMatrix (x : List (List α)) : List (List α) :=
+  x.map fun xi => x.map fun xj => Transc.sqrt (sqDist xi xj)
+
+/-- `DatasetBase::silhouette_score` of the records `x` with the labels `labels` -/
+def silhouettePts (x : List (List α)) (labels : List Nat) : α := silhouette (distMatrix x) labels
 end Sil
 
 /-! ## Pearson -/
